@@ -949,3 +949,69 @@ def branch_must_pass(P, fn_qual, cond_rx, when_true, callee_rx, to_any_exit=Fals
     if not calls:
         r.bad('call-missing', '`%s` no longer calls %s' % (fn['qual'], callee_rx))
     return r
+
+
+# ------------------------------------------------------------------------------ indexed writes (`v[i] = x`)
+def indexed_writes(P, fn_qual, container_rx):
+    """assignments through `IndexMut::index_mut(container, idx)`: [(block, container str, index str, value str, ln)]"""
+    fn = P.fn(fn_qual)
+    body = P.body(fn)
+    o = Origins(body)
+    crx = re.compile(container_rx)
+    out = []
+    for bi, t in body.calls_named(r'IndexMut::index_mut$'):
+        cont = o.arg_str(t, 0)
+        if not crx.search(cont):
+            continue
+        idx = o.arg_str(t, 1)
+        d = t['dest']['l']
+        # find `(*d) = value` (possibly after a Drop of the old value)
+        refs = {d}
+        for b in body.B:
+            for st in b['st']:
+                rv = st['rv']
+                if rv['k'] in ('ref', 'use') and not st['lhs']['p']:
+                    src = rv['pl']['l'] if rv['k'] == 'ref' and rv['pl']['p'] == ['*'] else (rv['o']['pl']['l'] if rv['k'] == 'use' and rv['o']['k'] in ('copy', 'move') and not rv['o']['pl']['p'] else None)
+                    if src in refs:
+                        refs.add(st['lhs']['l'])
+        for bj, b in enumerate(body.B):
+            if b.get('cu'):
+                continue
+            for st in b['st']:
+                if st['lhs']['l'] in refs and st['lhs']['p'] == ['*']:
+                    rvv = st['rv']
+                    raw = rvv['ops'][0] if rvv['k'] == 'agg' and len(rvv['ops']) == 1 else (rvv.get('o') if rvv['k'] == 'use' else None)
+                    out.append((bj, cont, idx, o.def_str(('st', st['rv'], bj, 0), 1), st['ln'], raw))
+            tt = b['term']
+            if tt['k'] == 'call' and tt['dest']['l'] in refs and tt['dest']['p'] == ['*']:
+                out.append((bj, cont, idx, o.def_str(('call', tt, bj), 1), b['ln'], None))
+    return out
+
+
+
+# ------------------------------------------------------------------------------ origin call of an operand
+def origin_call(body, op, depth=0):
+    """block of the (non-transparent) call that produced the value of `op`, looking through moves, refs,
+    field projections, `?`, deref/clone/into and single-field wrappers (`Some(x)`)"""
+    from .origins import TRANSPARENT
+    if depth > 16 or op is None or op.get('k') not in ('copy', 'move'):
+        return None
+    l = op['pl']['l']
+    ds = body.defs.get(l, [])
+    if len(ds) != 1:
+        return None
+    d = ds[0]
+    if d[0] == 'st':
+        rv = d[1]
+        if rv['k'] in ('use', 'cast'):
+            return origin_call(body, rv['o'], depth + 1)
+        if rv['k'] in ('ref', 'rawptr'):
+            return origin_call(body, {'k': 'copy', 'pl': rv['pl']}, depth + 1)
+        if rv['k'] == 'agg' and len(rv['ops']) == 1:
+            return origin_call(body, rv['ops'][0], depth + 1)
+        return None
+    t = d[1]
+    nm = callee_path(t)
+    if TRANSPARENT.search(nm) and t['args']:
+        return origin_call(body, t['args'][0], depth + 1)
+    return d[2]
